@@ -291,7 +291,15 @@ STMTS = {
     # unchanged tree: state of a namespace in a cached module leaks into the next render (SUSPECTED_DEFECTS) -- excluded
     "s_nslib": "{% set ns = namespace(c=0) %}{% macro bump() %}{% set ns.c = ns.c + 1 %}{{ ns.c }}{% endmacro %}",
     "s_nsmod": "{% import 's_nslib' as lib %}{{ lib.bump() }}",
-    "o_mix": "{% set xs = [] %}{% set acc = acc + [0] %}{% from 'a_lib' import LV %}{% import 's_modlib' as ml %}{{ ml.hello(nest|sum(start=[])) }}"
+    # containers handed to the namespace()/dict()/cycler() globals, attribute assignment and set blocks on them
+    "s_nsalias": "{% set ns = namespace(d) %}{% set ns.a = 5 %}{% set ns.fresh = xs %}{% set ns.blk %}b{% endset %}{{ ns.a }}{{ ns.blk }}{{ d|dictsort }}"
+                 "{% set n2 = namespace(dl, k=1) %}{% set n2.p = 0 %}{{ dl|dictsort }}{% set n3 = namespace(**d) %}{% set n3.a = 0 %}{{ d|dictsort }}",
+    "s_dictset": "{% set c = dict(d) %}{% set ns = namespace(c) %}{% set ns.a = 2 %}{{ c|dictsort }}{{ d|dictsort }}{% set cy = cycler(xs, acc) %}{{ cy.next() }}{{ cy.next() }}{{ cy.current }}",
+    "s_setdata": "{% set d.zz %}v{% endset %}{{ d|dictsort }}",
+    "s_setdata2": "{% set dl.p = 1 %}{{ dl|dictsort }}",
+    "s_policy": "{{ d|tojson }}{{ q|urlencode }}{{ ss|join(' ')|urlize }}{{ (ss|join(' ') ~ ' http://x.yz/abcdefghij')|urlize(8, true) }}{{ 'a b c d'|truncate(3) }}",
+    "o_mix": "{{ nest|tojson(2)|length }}{{ d|tojson(indent=1)|length }}{{ 'http://a.b/c'|urlize(4, true, target='_top', rel='x', extra_schemes=['x:'])|length }}{{ 'abcdefghijkl'|truncate(5, true, '-', 0) }}"
+             "{% set xs = [] %}{% set acc = acc + [0] %}{% from 'a_lib' import LV %}{% import 's_modlib' as ml %}{{ ml.hello(nest|sum(start=[])) }}"
              "{{ items|groupby('k')|list|length }}{{ nest|sum(start=acc) }}{{ GL|sort }}{{ TL|reverse|list }}{% include 's_inc2' without context %}"
              "{% for x in ss|sort %}{% set GL = x %}{% endfor %}{{ d|dictsort }}",
 }
@@ -301,7 +309,7 @@ for _i, _e in enumerate(EXPRS):
     SOURCES["e%03d" % _i] = "{{ " + _e + " }}"
 B_TABLE = ["e%03d" % i for i in range(len(EXPRS))] + [
     "s_unpack", "s_setlist", "s_nsglob", "s_loopset", "s_macrodef", "s_callblock", "s_filterblk", "s_with", "s_autoesc", "s_fromctx",
-    "s_inc_nc", "s_module", "s_nsmod", "o_mix"] + A_TEMPLATES
+    "s_inc_nc", "s_module", "s_nsmod", "o_mix", "s_nsalias", "s_dictset", "s_setdata", "s_setdata2", "s_policy"] + A_TEMPLATES
 B_OTHERS = ["o_mix", "a_import", "a_extends"]
 
 # ---- import scenario templates
@@ -401,6 +409,13 @@ class MemCache(BytecodeCache):
 CACHES = {}
 
 
+import jinja2.defaults as _jd
+
+
+# contents of the process-wide default policies at import time (fresh interpreter)
+DEFAULT_POLICIES_SNAP = {k: (dict(x) if isinstance(x, dict) else x) for k, x in _jd.DEFAULT_POLICIES.items()}
+
+
 class Case:
     """A fresh Environment with its own global containers; T and O loaded with template globals."""
 
@@ -413,6 +428,7 @@ class Case:
             bc = CACHES.setdefault((asyncm, autoescape), MemCache())
             env = Environment(loader=DictLoader(sources), enable_async=asyncm, autoescape=autoescape, bytecode_cache=bc)
             self.base_globals = dict(env.globals)
+            self.pol_snap = clone(env.policies)
             env.globals.update(eg)
             self.env = env
             for key, name, way, tg in loads:
@@ -435,6 +451,10 @@ class Case:
         with NoTracing():
             cached = list(env.cache.values())
             eg_now = dict(env.globals)
+            # rendering reads the policies, it never writes them (they are shared with jinja2.defaults)
+            import jinja2.defaults as _defaults
+            if not same(dict(env.policies), dict(self.pol_snap)) or not same(dict(_defaults.DEFAULT_POLICIES), DEFAULT_POLICIES_SNAP):
+                return False
         exp = dict(self.base_globals)
         exp.update(self.eg_snap)
         if not same(eg_now, exp):
